@@ -243,10 +243,8 @@ def handle (line : String) : String :=
         match parseOptNat nf, parseOptNat tl, parseSeqRes ("ok" :: rest) with
         | some nf, some tl, some r =>
           -- the property, on the implementation's object
-          -- (the parity clause is reported after the model comparison: two writers are known to
-          -- break it, and their table / total length / frame data must still be compared)
-          let parity : Option String := if r.frags.any (fun f => f.length % 2 = 1) then
-            some s!"PROP-FAIL class=odd-fragment-{name} lens={r.frags.map List.length}" else none
+          if r.frags.any (fun f => f.length % 2 = 1) then
+            s!"PROP-FAIL class=odd-fragment-{name} lens={r.frags.map List.length}" else
           if r.table.length ≠ frames then
             s!"PROP-FAIL class=bot-len {name} entries={r.table.length} frames={frames}" else
           if r.frags.length ≠ frames then
@@ -273,7 +271,6 @@ def handle (line : String) : String :=
             if m.totalLength ≠ tl then s!"MODEL-DIFF {name} total length model={m.totalLength} impl={tl}" else
             let mfpd := (List.range r.fpd.length).map fun i => framePixelData (some m.nframes) m.table m.fragments i
             if mfpd ≠ r.fpd then s!"MODEL-DIFF {name} fpd model={mfpd.map showFpd} impl={r.fpd.map showFpd}" else
-            if let some pf := parity then pf else
             s!"ok tx-{name}-b{bits}-s{spp}-f{cntClass frames}-{if im.frameSize % 2 = 1 then "oddframe" else "evenframe"}-{if data.length > im.frameSize * frames then "padded" else "exact"}-{src}-attr{attr}"
         | _, _, _ => "BAD-LINE"
       | _ =>
